@@ -476,7 +476,37 @@ def fam_bind(r, idx, sweep=None):
                 e.actions.append(Action("call", r.choice(S_SITES), callee=callee.name,
                                         expr=None, stmt="%s();" % callee.name))
     finish_entries(r, spec, namer)
+    if r.random() < 0.07:
+        alias_binding(r, spec, namer)
     return spec
+
+
+def alias_binding(r, spec, namer):
+    """a further, unused resource variable declared at the (group, binding) of an existing one
+    (legal WGSL as long as no entry point uses both): the tool has to refuse the shader with
+    DuplicateBinding, whatever lies between the two declarations"""
+    res = [g for g in spec.globals if g.is_resource()]
+    if not res:
+        return
+    by_group = {}
+    for g in res:
+        by_group.setdefault(g.group, []).append(g)
+    crowded = [gs for gs in by_group.values() if len(gs) >= 2]
+    gs = r.choice(crowded) if crowded and r.random() < 0.8 else r.choice(list(by_group.values()))
+    first = gs[0]
+    t = Global(namer.fresh("dup"), first.kind, space=first.space, access=first.access,
+               ty=first.ty, tex=dict(first.tex) if first.tex else None,
+               comparison=first.comparison, group=first.group, binding=first.binding)
+    if r.random() < 0.5:
+        # another resource class at the same slot
+        t = Global(namer.fresh("dup"), "buffer", space="uniform", access=None,
+                   ty=W.V(4, "f32"), group=first.group, binding=first.binding)
+    # after a later declaration of the same group when there is one, else anywhere later
+    later = [spec.globals.index(g) for g in gs[1:]]
+    pos = (r.choice(later) + 1) if later and r.random() < 0.8 else \
+        r.randint(spec.globals.index(first) + 1, len(spec.globals))
+    spec.globals.insert(pos, t)
+    spec.expect_decline = "DuplicateBinding"
 
 
 def fam_struct(r, idx):
@@ -710,10 +740,12 @@ def role_structs(r, spec, namer):
     host_leaf = make_struct(r, spec, namer, [], depth=1, f64=0, traps=True, attrs=0)
     host_root = make_struct(r, spec, namer, [host_leaf], depth=2, f64=0)
     if r.random() < 0.6:
-        spec.structs[host_root].members.append({"name": namer.fresh("nest"),
-                                                "ty": r.choice([W.ST(host_leaf),
-                                                                W.A(W.ST(host_leaf), 2),
-                                                                W.A(W.A(W.ST(host_leaf), 2), 3)])})
+        ms_ = spec.structs[host_root].members
+        # first, last or in between: a walk over the members must reach it wherever it is
+        ms_.insert(r.choice([0, 0, len(ms_), r.randint(0, len(ms_))]),
+                   {"name": namer.fresh("nest"), "ty": r.choice([W.ST(host_leaf),
+                                                                 W.A(W.ST(host_leaf), 2),
+                                                                 W.A(W.A(W.ST(host_leaf), 2), 3)])})
     spec.globals.append(Global(namer.fresh("g"), "buffer", space="storage", access="read_write",
                                ty=r.choice([W.ST(host_root), W.A(W.ST(host_root), 2),
                                             W.A(W.ST(host_root), None)]), group=0, binding=0))
@@ -802,8 +834,12 @@ def role_structs(r, spec, namer):
             # reachable only through a member of a member
             w1 = namer.fresh("Wrap")
             w1 = w1[0].upper() + w1[1:]
-            spec.structs[w1] = W.StructDef(w1, [{"name": "n", "ty": W.V(4, "u32")},
-                                                {"name": "items", "ty": bty}])
+            wm = [{"name": "n", "ty": W.V(4, "u32")}, {"name": "items", "ty": bty}]
+            if r.random() < 0.6:
+                # the nested struct first, then members of types seen before (twice the same)
+                wm = [{"name": "items", "ty": bty}, {"name": "n", "ty": W.V(4, "u32")},
+                      {"name": "k", "ty": W.V(4, "u32")}]
+            spec.structs[w1] = W.StructDef(w1, wm)
             w2 = namer.fresh("Outer")
             w2 = w2[0].upper() + w2[1:]
             spec.structs[w2] = W.StructDef(w2, [{"name": "w", "ty": W.ST(w1)}])
@@ -814,6 +850,28 @@ def role_structs(r, spec, namer):
         v2.params = [{"name": "b", "struct": b}]
         v2.result = {"kind": "position"}
         ents.append(v2)
+    if r.random() < 0.3:
+        # a struct that only fragment entry points return and that is also a parameter (the
+        # same entry, or another one): a stage output, never filled by the host
+        fl = io_struct(r, spec, namer, "FLoop", flat_ints=False,
+                       types=[W.V(4, "f32"), W.S("f32"), W.V(2, "f32")])
+        f3 = Entry(namer.fresh("fs_"), "fragment")
+        f3.result = {"kind": "struct", "struct": fl}
+        if r.random() < 0.5:
+            f3.params = [{"name": "prev", "struct": fl}]
+            ents.append(f3)
+        else:
+            f4 = Entry(namer.fresh("fs_"), "fragment")
+            f4.params = [{"name": "prev", "struct": fl}]
+            f4.result = r.choice([None, {"kind": "location", "location": 0, "ty": "vec4<f32>"}])
+            ents += [f3, f4] if r.random() < 0.5 else [f4, f3]
+    if r.random() < 0.25:
+        # a struct reachable only through a workgroup array whose length is an override
+        tile = make_struct(r, spec, namer, [], depth=0, f64=0, attrs=0)
+        on = namer.fresh("tile_len_")
+        spec.overrides.append({"name": on, "ty": "u32", "id": None, "default": "8u"})
+        spec.globals.append(Global(namer.fresh("wg"), "workgroup", ty=W.A(W.ST(tile), 8),
+                                   len_override=on))
     spec.funcs = []
     if r.random() < 0.5:
         r.shuffle(ents)  # e.g. the consumer of an inter-stage struct before its producer
@@ -958,6 +1016,14 @@ def fam_entry(r, idx):
                                                   "builtin": b})
             if not ms:
                 ms = [{"name": "d", "ty": W.S("f32"), "builtin": "frag_depth"}]
+            if r.random() < 0.15:
+                # dual source blending: two values for ONE colour target (location 0)
+                ms = [m for m in ms if m.get("location") is None]
+                pair = [{"name": namer.fresh("o"), "ty": W.V(4, "f32"), "location": 0},
+                        {"name": namer.fresh("o"), "ty": W.V(4, "f32"), "location": 0,
+                         "blend_src": True}]
+                for m in pair:
+                    ms.insert(r.randint(0, len(ms)), m)
             spec.structs[name] = W.StructDef(name, ms)
             e.result = {"kind": "struct", "struct": name}
         if r.random() < 0.4:
@@ -1085,7 +1151,7 @@ def fam_const(r, idx):
             c = {"name": name, "decl": "const %s = %dlu;" % (name, v), "ty": "u64", "bits": v}
         elif k < 0.83:
             # zero value constructors
-            ty = r.choice(["f32", "i32", "u32", "bool"])
+            ty = r.choice(["f32", "i32", "u32", "bool", "i64", "u64", "f64"])
             c = {"name": name, "decl": "const %s%s = %s();" % (
                 name, r.choice(["", ": " + ty]), ty), "ty": ty, "bits": 0}
         elif k < 0.9 and prev:
